@@ -602,6 +602,10 @@ func (m *Machine) invoke(fr *frame, in ssa.CallInstruction, c *ssa.CallCommon, f
 		name := "invoke:" + c.Method.FullName()
 		switch r := fv.(type) {
 		case Iface:
+			if b, isB := r.T.(*types.Basic); r.T == nil || isB && b.Kind() == types.Invalid {
+				// opaque dynamic value behind a non-nil interface
+				return m.modelOrOpaque(fr, in, name, nil, c.Signature(), append([]Val{r.V}, args...))
+			}
 			fn := m.Prog.LookupMethod(r.T, c.Method.Pkg(), c.Method.Name())
 			if fn == nil {
 				m.abort("no method %s on %s", c.Method.Name(), r.T)
